@@ -195,3 +195,74 @@ Theorem C13_old_loop_label_collides :
     NoDup names /\ In c (cats feature) /\ name_of names c = old_pooled_label names feature n_bins.
 Proof. exact old_loop_label_collides. Qed.
 Print Assumptions C13_old_loop_label_collides.
+
+(* ---- numpy's histogram rules sturges / sqrt / rice modelled exactly (proofs/NumpyRulesProps.v) ---- *)
+From Coq Require Import NArith QArith List Bool.
+Import ListNotations.
+From MD Require Import lib.QLists model.Functionals model.Binning model.NumpyRules proofs.BinningProps proofs.NumpyRulesProps.
+Open Scope Q_scope.
+
+(* numpy's rules sturges / sqrt / rice are computed inside Coq (model/NumpyRules.v): the exact number of bins ... *)
+Theorem C13_rule_bins_sturges :
+  forall n : N,
+       (0 < n)%N ->
+       (n <= 2 ^ (bins_exact Sturges n - 1))%N /\
+       (forall k : N, (1 <= k)%N -> (n <= 2 ^ (k - 1))%N -> (bins_exact Sturges n <= k)%N).
+Proof. exact bins_exact_sturges. Qed.
+Print Assumptions C13_rule_bins_sturges.
+
+Theorem C13_rule_bins_sqrt :
+  forall n : N,
+       (n <= bins_exact Sqrt n * bins_exact Sqrt n)%N /\
+       (forall k : N, (n <= k * k)%N -> (bins_exact Sqrt n <= k)%N).
+Proof. exact bins_exact_sqrt. Qed.
+Print Assumptions C13_rule_bins_sqrt.
+
+Theorem C13_rule_bins_rice :
+  forall n : N,
+       (8 * n <= cube (bins_exact Rice n))%N /\
+       (forall k : N, (8 * n <= cube k)%N -> (bins_exact Rice n <= k)%N).
+Proof. exact bins_exact_rice. Qed.
+Print Assumptions C13_rule_bins_rice.
+
+(* ... numpy's float computation gives the exact rule's count, or one more and then only at an exact point (n = 2^k, k^2) *)
+Theorem C13_rule_nbins_bound :
+  forall (r : rule) (k : dkind) (n : N) (lo hi : Q) (K : N) (es : list Q),
+       np_edges r k n lo hi = NpOk K es ->
+       (0 < n)%N ->
+       lo < hi ->
+       K = nbins_exact r k n lo hi \/ exact_point r n = true /\ K = (nbins_exact r k n lo hi + 1)%N.
+Proof. exact np_nbins_bound. Qed.
+Print Assumptions C13_rule_nbins_bound.
+
+Theorem C13_rule_edges_exact :
+  forall (r : rule) (k : dkind) (n : N) (lo hi : Q),
+       lo <= hi ->
+       let es := rule_edges_exact r k n lo hi in
+       let
+       '(f, l, K) := rule_outer_exact r k n lo hi in
+        (1 <= K)%N /\ length es = S (N.to_nat K) /\ hd 0 es == f /\ last es 0 == l /\ f < l /\ strictQ es.
+Proof. exact rule_edges_exact_props. Qed.
+Print Assumptions C13_rule_edges_exact.
+
+(* the interior edges of these rules are sorted: the hypothesis of C13_bin_contains is discharged for them *)
+Theorem C13_rule_edges_sorted :
+  forall (r : rule) (k : dkind) (n : N) (lo hi : Q) (l : list Q),
+       np_interior r k n lo hi = Some l -> xsorted (map Fin l).
+Proof. exact rule_edges_sorted. Qed.
+Print Assumptions C13_rule_edges_sorted.
+
+Theorem C13_bin_contains_rule :
+  forall (r : rule) (dk : dkind) (na : N) (lo hi : Q) (interior : list Q) (kind : nkind)
+         (feature : list (option ext)) (n_bins n : nat) (edges : list ext) (table : list (ext * ext))
+         (rows : list nrow),
+       np_interior r dk na lo hi = Some interior ->
+       bin_numeric kind feature n_bins NumpyRule interior = NOk n edges table rows ->
+       forall (i : nat) (v : ext),
+       nth_error feature i = Some (Some v) ->
+       exists l h : ext,
+         nth_error rows i = Some (Some (stored_bin kind (digitize edges v), (l, h))) /\
+         nth (digitize edges v) table (l, h) = (l, h) /\
+         (if digitize edges v =? 0 then xleb l v else xltb l v) = true /\ xleb v h = true.
+Proof. exact bin_contains_rule. Qed.
+Print Assumptions C13_bin_contains_rule.
